@@ -50,7 +50,8 @@ def impl_action(act):
     return a
 
 
-def run_history(events, store_kind="local", keep_dir=False, hashseed="0", extra_env=None, cwd=None, run_ref=True, run_model=True, options=None):
+def run_history(events, store_kind="local", keep_dir=False, hashseed="0", extra_env=None, cwd=None, run_ref=True, run_model=True, options=None,
+                usage=None):
     """events: list of ("prog", prog) | ("restart",) | ("act", action).  Returns list of per-action records:
     {"act", "impl": {...}, "ref": {...}, "model": {...}}.  A 'setvar' action also updates the model's view."""
     root = tempfile.mkdtemp(prefix="hist_", dir=C.scratch_dir())
@@ -96,6 +97,8 @@ def run_history(events, store_kind="local", keep_dir=False, hashseed="0", extra_
         P.write_package(seg["prog"], pkgroot)
         payload = {"root": pkgroot, "pkg": seg["prog"]["pkg"], "store": store, "actions": [impl_action(a) for a in seg["actions"]],
                    "options": options or {}}
+        if usage:       # "script" | "notebook": single-module programs only
+            payload["usage"], payload["main_module"] = usage, seg["prog"]["root"][0]
         for a in payload["actions"]:
             if a.get("export") is True:
                 a["export"] = os.path.join(root, "graph.plain")
